@@ -7,10 +7,10 @@ PID = "C15"
 MODULES = ["Prelude", "C15_Model", "C15_Spec", "C15_Check"]
 PROPS_MODULE = "C15_Properties"
 THEOREMS = ["C15_delete_cluster", "C15_remove_endpoint", "C15_done_is_forever", "C15_removed_never_picked_again",
-            "C15_cut_needs_done_context", "C15_stale_request_forwarded_before_fix"]
+            "C15_cut_needs_done_context", "C15_probe_context_parent", "C15_stale_request_forwarded_before_fix"]
 EVAL = "C15_Check.eval"
 CLAUSES = ["agree", "not_routed", "inflight_cut", "prompt", "probing_stops", "others_unaffected"]
-RULE = ("distinct scenarios with a removal (cluster deleted or endpoint(s) removed) in which at least one request was in "
+RULE = ("distinct (pre-history, scenario) pairs with a removal (cluster deleted or endpoint(s) removed) in which at least one request was in "
         "flight on the removed cluster/endpoint (resolved-before-pick, connecting or streaming) and at least one request or "
         "endpoint of another cluster / sibling endpoint was there to be left alone")
 TRUSTED_BASE = [
@@ -39,8 +39,11 @@ HARNESS_TIMEOUT = 600
 COQ_SHARD = 30
 
 
-def cl(i, eps, aliases=0):
-    return {"name": "c%d.example.com" % i, "aliases": ["c%d-alias%d.example.com" % (i, j) for j in range(aliases)], "eps": eps}
+def cl(i, eps, aliases=0, pre=()):
+    """pre: server lists synced before the scenario proper, one list per sync with a state per endpoint
+    (0 not listed, 1 enabled, 2 disabled:true); after them every endpoint is listed enabled."""
+    return {"name": "c%d.example.com" % i, "aliases": ["c%d-alias%d.example.com" % (i, j) for j in range(aliases)],
+            "eps": eps, "pre": [list(p) for p in pre]}
 
 
 def rq(c, ep, phase="plain", via=0):
@@ -72,6 +75,22 @@ def corpus():
                "reqs": [rq(0, 0, "streaming", 2), rq(0, -1, "connecting"), rq(0, 0, "before", 1)],
                "action": {"kind": "delete", "cl": 0, "eps": []},
                "after": [rq(0, 0), rq(0, 0, via=1), rq(0, 0, via=2)]})
+    # the probe loop of the victim was (re)started on the update path of addOrUpdateEndpoint:
+    # (a) enabled -> disabled -> enabled again, then removed; sibling untouched
+    cs.append({"clusters": [cl(0, 2, 0, pre=[(1, 1), (2, 1)])],
+               "reqs": [rq(0, 0, "streaming"), rq(0, 1, "streaming"), rq(0, 0, "before")],
+               "action": {"kind": "remove", "cl": 0, "eps": [0]},
+               "after": [rq(0, 0), rq(0, 1)]})
+    # (b) first added with disabled:true, enabled by a later sync, then removed
+    cs.append({"clusters": [cl(0, 2, 1, pre=[(2, 1)]), cl(1, 1, 0, pre=[(2,)])],
+               "reqs": [rq(0, 0, "connecting"), rq(0, 1, "connecting", 1), rq(1, 0, "streaming")],
+               "action": {"kind": "remove", "cl": 0, "eps": [0]},
+               "after": [rq(0, 0), rq(0, -1), rq(1, 0)]})
+    # (c) several syncs: added late, toggled twice, removed and re-added (a new object), then the cluster is deleted
+    cs.append({"clusters": [cl(0, 3, 0, pre=[(1, 0, 2), (2, 1, 1), (1, 1, 0), (1, 2, 1), (0, 1, 1)]), cl(1, 2, 0, pre=[(2, 2), (1, 2)])],
+               "reqs": [rq(0, 0, "streaming"), rq(0, 2, "connecting"), rq(1, 1, "streaming"), rq(0, 1, "before")],
+               "action": {"kind": "delete", "cl": 0, "eps": []},
+               "after": [rq(0, 0), rq(1, 1), rq(1, 0)]})
     # control: no removal, everything completes
     cs.append({"clusters": [cl(0, 2), cl(1, 1)],
                "reqs": [rq(0, 0, "before"), rq(0, 1, "connecting"), rq(1, 0, "streaming")],
@@ -82,7 +101,14 @@ def corpus():
 
 def gen_scen(rng):
     ncl = rng.choice([1, 2, 2, 3])
-    clusters = [cl(i, rng.choice([1, 2, 2, 3, 3]), rng.choice([0, 0, 1, 2])) for i in range(ncl)]
+    clusters = []
+    for i in range(ncl):
+        n = rng.choice([1, 2, 2, 3, 3])
+        pre = []
+        if rng.chance(2, 3):      # a history before the scenario: toggles, late adds, disabled-first, re-adds
+            for _ in range(rng.choice([1, 1, 2, 2, 3, 4])):
+                pre.append([rng.choice([1, 1, 2, 2, 0]) for _ in range(n)])
+        clusters.append(cl(i, n, rng.choice([0, 0, 1, 2]), pre))
     k = rng.below(20)
     tcl = rng.below(ncl)
     if k < 9:
@@ -133,7 +159,9 @@ def coq_case(case, obs):
     try:
         if "panic" in obs:
             return "CBroken"
-        cls = clist(["(mkScl %d %s %d)" % (100 * i, clist([cZ(100 * i + j + 1) for j in range(len(c["aliases"]))]), c["eps"])
+        cls = clist(["(mkScl %d %s %d %s)" % (100 * i, clist([cZ(100 * i + j + 1) for j in range(len(c["aliases"]))]), c["eps"],
+                                              clist([clist([cZ(x) for x in (list(p) + [1] * c["eps"])[:c["eps"]]])
+                                                     for p in c.get("pre", [])]))
                      for i, c in enumerate(case["clusters"])])
         a = case["action"]
         act = {"delete": "(ADelete %d)" % a["cl"], "none": "ANone",
@@ -173,6 +201,18 @@ def nontrivial_key(case, obs):
 
 def stats(case, obs):
     labs = ["action:" + case["action"]["kind"], "clusters:%d" % len(case["clusters"])]
+    a = case["action"]
+    if a["kind"] != "none":
+        pre = case["clusters"][a["cl"]].get("pre", [])
+        vict = a["eps"] if a["kind"] == "remove" else list(range(case["clusters"][a["cl"]]["eps"]))
+        for e in vict:
+            hist = [(list(p) + [1] * 8)[e] for p in pre] + [1]
+            # the probe loop running at removal time was started on the update path iff the endpoint was
+            # listed disabled right before it was last enabled
+            k = len(hist) - 1
+            while k > 0 and hist[k - 1] == 1:
+                k -= 1
+            labs.append("victim-probe-loop:" + ("update-path" if k > 0 and hist[k - 1] == 2 else "new-endpoint-path"))
     for r, o in zip(case["reqs"], obs.get("reqs", [])):
         v = _victim(case, r)
         cls = "complete" if o["complete"] else ("503" if o["code"] == 503 and not o["up_seen"] else "cut")
